@@ -10,7 +10,7 @@ const rule = "payload shapes from an explicit grammar, every derivation: a spine
 
 var assumptions = []string{
 	"the pristine twin is rebuilt from the descriptor, so equality needs no copy routine shared with the filter",
-	"a public key of a Taggable nested where the filter treats the container as an untagged map is counted as over-redaction, not as a violation",
+	"a public key of a Taggable inside a payload passed as a struct by value (not settable: finding S13) is swept like an untagged map; that is counted as over-redaction, not judged by this property",
 }
 
 func extraScenarios(tier string) []string { return nil }
